@@ -78,12 +78,24 @@ def replay_dbo(model):
                          f"{hand!r}", "inputs": m}
 
 
-def replay_co(model, side="below"):
+def replay_co(model, side="below", defaults=False):
     from bluebonnet.fluids import oil, gas
     m = model_floats(model, ["T", "p", "api", "gg", "rsi", "tpc", "ppc", "tstd", "pstd"],
-                     default=dict(tpc=-72.2, ppc=653.0, tstd=60.0, pstd=14.7))
+                     default=dict(T=200.0, p=1000.0, api=35.0, gg=0.8, rsi=650.0, tpc=-72.2, ppc=653.0, tstd=60.0, pstd=14.7))
     a5 = (m["T"], m["p"], m["api"], m["gg"], m["rsi"])
     pb = oil.pressure_bubblepoint_Standing(m["T"], m["api"], m["gg"], m["rsi"])
+    if defaults:
+        # standard conditions left to the defaults on both sides: the library's own gas FVF is b_factor_DAK(T, p, Tpc, ppc)
+        if m["p"] >= pb:
+            m["p"] = 0.7 * float(pb)
+            a5 = (m["T"], m["p"], m["api"], m["gg"], m["rsi"])
+        got = oil.oil_compressibility_Standing(*a5, m["tpc"], m["ppc"])
+        bg = gas.b_factor_DAK(m["T"], m["p"], m["tpc"], m["ppc"])
+        rs = oil.solution_gor_Standing(*a5)
+        want = (bg - oil.db_o_dgor_Standing(m["T"], m["api"], m["gg"], rs)) * oil.dgor_dpressure_Standing(*a5) \
+            / oil.b_o_bubblepoint_Standing(m["T"], m["api"], m["gg"], m["rsi"])
+        return abs(got - want) > 1e-9 * abs(want), {"what": f"standard conditions left to their defaults: oil_compressibility_Standing {got!r} vs the combination with "
+                                                             f"the library's own b_factor_DAK(T, p, Tpc, ppc) {want!r}", "inputs": m}
     got = oil.oil_compressibility_Standing(*a5, m["tpc"], m["ppc"], m["tstd"], m["pstd"])
     if m["p"] >= pb:
         want = oil.oil_compressibility_undersat_Spivey(*a5)
@@ -213,8 +225,9 @@ def _uf(name, pos=True, like=None):
     return f
 
 
-def job_co(job, real_parts=False):
-    """oil_compressibility_Standing: Spivey call at/above p_b; defining combination below."""
+def job_co(job, real_parts=False, defaults=False):
+    """oil_compressibility_Standing: Spivey call at/above p_b; defining combination below.
+    `defaults`: standard conditions left to the defaults, here and in the library's own gas FVF."""
     import bluebonnet.fluids.gas as _rg
     import bluebonnet.fluids.oil as _ro
     stubs = dict(oil_compressibility_undersat_Spivey=_uf("Spivey", like=_ro.oil_compressibility_undersat_Spivey), b_factor_DAK=_uf("Bg", like=_rg.b_factor_DAK))
@@ -233,13 +246,13 @@ def job_co(job, real_parts=False):
     a5 = (T_, p, api, gg, rsi)
 
     def run():
-        got = oil.oil_compressibility_Standing(*a5, vs["tpc"], vs["ppc"], vs["tstd"], vs["pstd"])
+        got = oil.oil_compressibility_Standing(*a5, vs["tpc"], vs["ppc"], *(() if defaults else (vs["tstd"], vs["pstd"])))
         pb = ref.pressure_bubblepoint_Standing(T_, api, gg, rsi)
         above = bool(p >= pb)
         if above:
             want = stubs["oil_compressibility_undersat_Spivey"](*a5)
         else:
-            bg = stubs["b_factor_DAK"](T_, p, vs["tpc"], vs["ppc"], vs["tstd"], vs["pstd"])
+            bg = stubs["b_factor_DAK"](T_, p, vs["tpc"], vs["ppc"], *(() if defaults else (vs["tstd"], vs["pstd"])))
             if real_parts:
                 rs = ref.solution_gor_Standing(*a5)
                 want = (bg - ref.db_o_dgor_Standing(T_, api, gg, rs)) * ref.dgor_dpressure_Standing(*a5) \
@@ -251,7 +264,7 @@ def job_co(job, real_parts=False):
         return got, want, above
 
     res = paths(job, run, dom)
-    tag = "real" if real_parts else "uf"
+    tag = ("real" if real_parts else "uf") + (",default standard conditions" if defaults else "")
     sides = set()
     for k, pr in enumerate(res):
         if pr.exc is not None:
@@ -260,7 +273,7 @@ def job_co(job, real_parts=False):
         got, want, above = pr.value
         sides.add(above)
         job.prove(f"oil/c_o[{tag}][{'above' if above else 'below'}]", pr.pc + [not_close(got, want)],
-                  bound="oil box x pseudocritical box", replay=(replay_co, {}))
+                  bound="oil box x pseudocritical box", replay=(replay_co, {"defaults": defaults}))
         job.prove(f"oil/c_o[{tag}]/reach[{'above' if above else 'below'}]", pr.pc, expect="sat")
     if sides != {True, False}:
         job.errors.append(f"co[{tag}]: both sides of the bubble point must be explored, got {sides}")
@@ -268,4 +281,4 @@ def job_co(job, real_parts=False):
 
 def jobs(tier):
     return [("water", job_water), ("dgor", job_dgor), ("dbo", job_dbo),
-            ("co-uf", lambda j: job_co(j, False)), ("co-real", lambda j: job_co(j, True))]
+            ("co-uf", lambda j: job_co(j, False)), ("co-real", lambda j: job_co(j, True)), ("co-uf-default-standard-conditions", lambda j: job_co(j, False, True))]
